@@ -81,6 +81,7 @@ LEVEL_NOTE = ("Trusted: CPython, the DEFAULT_STYLES table data, Style.parse as t
 MAXHEIGHT = 5
 QUICK_DEPTH = 4
 QUICK_BOTH_MODES_DEPTH = 2      # quick: histories of <= 3 events are also run without intermediate lookups
+THOROUGH_BOTH_MODES_DEPTH = 3   # thorough: histories of <= 4 events
 
 # ------------------------------------------------------------------ reference vocabulary
 R = RefStyle
@@ -121,8 +122,16 @@ PROBES = [(n, None) for n in NAMES] + [("bold red", None), ("not a style", None)
                                        ("not a style", "bold red"), ("a", "bold red"), ("repr.number", "bold red")]
 
 PUSHES = [(kind, t, ti, pi) for kind in ("push", "enter") for t in THEMES for ti in (True, False) for pi in (True, False)]
+# Refused operations are events like any other: the caller handles the error and goes on. None of
+# them may change anything. ("pop" at base height is the fifth; it is in the alphabet already.)
+REFUSALS = [("push_bad", True), ("push_bad", False), ("enter_bad", True), ("enter_bad", False), ("bad_input",)]
 EVNAME = {"push": "push_theme", "enter": "use_theme", "pop": "pop_theme", "exit": "use_theme-exit",
-          "exit_exc": "use_theme-exit-exc"}
+          "exit_exc": "use_theme-exit-exc", "push_bad": "refused-push_theme", "enter_bad": "refused-use_theme",
+          "bad_input": "refused-theme-input"}
+# the two things the histories are run on: a Console (get_style / push_theme / pop_theme / use_theme)
+# and a bare rich.theme.ThemeStack (get / push_theme / pop_theme; no blocks, no parse fallback)
+DRIVERS = ("console", "stack")
+STACK_PROBES = [(n, None) for n in NAMES]
 
 _DEFAULTS = {}
 
@@ -156,12 +165,14 @@ _ORIGIN_MEMO = {}
 class RefStack:
     """The statement, literally: a list of levels (own definitions, has the default table,
     inherit flag, owned by a use_theme block); a name resolves to the top-most level that
-    defines it, looking below a level only if that level was pushed with inherit=True."""
+    defines it, looking below a level only if that level was pushed with inherit=True.
+    A refused operation changes nothing but is remembered (`refused`)."""
 
-    __slots__ = ("levels", "maxh")
+    __slots__ = ("levels", "maxh", "refused")
 
-    def __init__(self, base=None, levels=None, maxh=1):
+    def __init__(self, base=None, levels=None, maxh=1, refused=False):
         self.maxh = maxh          # greatest height this history has been at (= depths looked up so far)
+        self.refused = refused    # some operation of this history was refused
         if levels is not None:
             self.levels = levels
             return
@@ -171,7 +182,7 @@ class RefStack:
         self._add(own, hasdef, False, False)
 
     def copy(self):
-        return RefStack(levels=list(self.levels), maxh=self.maxh)
+        return RefStack(levels=list(self.levels), maxh=self.maxh, refused=self.refused)
 
     @property
     def height(self):
@@ -185,13 +196,18 @@ class RefStack:
         table = tuple(self.resolve(n)[0] for n in NAMES)
         self.levels[-1] = (own, hasdef, inherit, cm, table)
 
+    def is_refusal(self, ev):
+        return ev[0] in ("push_bad", "enter_bad", "bad_input") or (ev[0] == "pop" and len(self.levels) == 1)
+
     def apply(self, ev):
         kind = ev[0]
-        if kind in ("push", "enter"):
+        if self.is_refusal(ev):
+            self.refused = True
+        elif kind in ("push", "enter"):
             self._add(THEMES[ev[1]], ev[2], ev[3], kind == "enter")
             if len(self.levels) > self.maxh:
                 self.maxh = len(self.levels)
-        elif len(self.levels) > 1:
+        else:
             self.levels.pop()
 
     def resolve(self, name, flip_top=False):
@@ -214,11 +230,11 @@ class RefStack:
         # own-definition dicts are module constants, so their ids identify them
         return tuple((id(lv[0]), lv[1], lv[2]) for lv in self.levels)
 
-    def expected(self, flip_top=False):
-        mk = (self._ident(), flip_top)
+    def expected(self, flip_top=False, driver="console"):
+        mk = (self._ident(), flip_top, driver)
         hit = _EXPECT_MEMO.get(mk)
         if hit is None:
-            hit = _EXPECT_MEMO[mk] = self._expected(flip_top)
+            hit = _EXPECT_MEMO[mk] = self._expected(flip_top) if driver == "console" else self._expected_stack(flip_top)
         return hit
 
     def _expected(self, flip_top):
@@ -232,6 +248,14 @@ class RefStack:
                 if v is None:
                     v = PARSE[default]
             out.append(_value_key(v))
+        return tuple(out)
+
+    def _expected_stack(self, flip_top):
+        """ThemeStack.get(name): the entry, or None when no theme in reach defines the name"""
+        out = []
+        for name, _d in STACK_PROBES:
+            v = self.resolve(name, flip_top)[0]
+            out.append(("m",) if v is None else _value_key(v))
         return tuple(out)
 
     def origins(self):
@@ -249,27 +273,80 @@ class RefStack:
         return "".join(out)
 
     def canon(self):
-        return (tuple((lv[4], lv[3]) for lv in self.levels), self.maxh)
+        return (tuple((lv[4], lv[3]) for lv in self.levels), self.maxh, self.refused)
 
     def level1(self):
         return (self.levels[1][4], self.levels[1][3])
 
 
-def _enabled(ref, maxheight):
+def _enabled(ref, maxheight, driver="console"):
     evs = []
     if ref.height < maxheight:
-        evs.extend(PUSHES)
+        evs.extend(PUSHES if driver == "console" else [e for e in PUSHES if e[0] == "push"])
     if ref.height > 1 and ref.top_is_block():
         evs.append(("exit",))
         evs.append(("exit_exc",))
     else:
-        evs.append(("pop",))
+        evs.append(("pop",))          # at height 1 this is the refused pop of the base theme
+    evs.extend(REFUSALS if driver == "console" else [e for e in REFUSALS if e[0] != "enter_bad"])
     return evs
 
 
 # ------------------------------------------------------------------ the real thing
 class _Boom(Exception):
     pass
+
+
+class _HalfStyles:
+    """What an invalid theme carries for styles: a mapping that fails half way through being read."""
+
+    def keys(self):
+        return ["a", "zz.never"]
+
+    def __getitem__(self, name):
+        if name == "a":
+            from rich.style import Style
+            return Style(bold=True, color="bright_magenta")
+        raise _Boom("styles of an invalid theme")
+
+    def __iter__(self):
+        return iter(self.keys())
+
+    def __len__(self):
+        return 2
+
+    def items(self):
+        yield ("a", self["a"])
+        raise _Boom("styles of an invalid theme")
+
+    def copy(self):
+        raise _Boom("styles of an invalid theme")
+
+
+class _BadTheme:
+    """Not a Theme: pushing it cannot succeed."""
+
+    def __init__(self):
+        self.styles = _HalfStyles()
+
+
+BAD_CONFIGS = ("[styles]\na = not a style\n", "a = red\n", "[styles]\nb = bold\nb = dim\n")
+
+
+def _bad_input():
+    """Three ways of failing to make a theme. -> how many of them raised"""
+    from rich.theme import Theme
+    raised = 0
+    for text in BAD_CONFIGS:
+        try:
+            Theme.from_file(io.StringIO(text))
+        except Exception:
+            raised += 1
+    try:
+        Theme({"a": "not a style"})
+    except Exception:
+        raised += 1
+    return raised
 
 
 _STYLE_OBJS = {}
@@ -291,16 +368,24 @@ def _theme(defs, inherit):
 
 
 class Impl:
-    """One session: a fresh Console and ONE Theme object per theme id for the whole history (a
-    program keeps its Theme objects and pushes them again and again)."""
+    """One session: a fresh Console (or a fresh bare ThemeStack) and ONE Theme object per theme id
+    for the whole history (a program keeps its Theme objects and pushes them again and again)."""
 
-    def __init__(self, base):
-        from rich.console import Console
+    def __init__(self, base, driver="console"):
+        self.driver = driver
         self.themes = {}            # id -> (Theme, copy of its .styles taken at construction)
         b = BASES[base]
-        self.console = Console(file=io.StringIO(), width=80, height=25, force_terminal=False, color_system=None,
-                               legacy_windows=False, _environ={},
-                               theme=None if b is None else self.theme(base, b[0], b[1]))
+        theme = None if b is None else self.theme(base, b[0], b[1])
+        if driver == "console":
+            from rich.console import Console
+            self.console = Console(file=io.StringIO(), width=80, height=25, force_terminal=False, color_system=None,
+                                   legacy_windows=False, _environ={}, theme=theme)
+            self.target = self.console
+        else:
+            from rich.theme import ThemeStack
+            from rich import themes
+            self.console = None
+            self.target = ThemeStack(themes.DEFAULT if theme is None else theme)
         self.blocks = []
 
     def theme(self, tid, defs, inherit):
@@ -326,13 +411,13 @@ class Impl:
         kind = ev[0]
         try:
             if kind == "push":
-                self.console.push_theme(self.theme(ev[1], THEMES[ev[1]], ev[2]), inherit=ev[3])
+                self.target.push_theme(self.theme(ev[1], THEMES[ev[1]], ev[2]), inherit=ev[3])
             elif kind == "enter":
                 cm = self.console.use_theme(self.theme(ev[1], THEMES[ev[1]], ev[2]), inherit=ev[3])
                 cm.__enter__()
                 self.blocks.append(cm)
             elif kind == "pop":
-                self.console.pop_theme()
+                self.target.pop_theme()
             elif kind == "exit":
                 self.blocks.pop().__exit__(None, None, None)
             elif kind == "exit_exc":
@@ -341,6 +426,15 @@ class Impl:
                     raise _Boom("block body failed")
                 except _Boom as e:
                     cm.__exit__(type(e), e, e.__traceback__)
+            elif kind == "push_bad":
+                self.target.push_theme(_BadTheme(), inherit=ev[1])
+            elif kind == "enter_bad":
+                cm = self.console.use_theme(_BadTheme(), inherit=ev[1])
+                cm.__enter__()               # raises: the body never runs and __exit__ is never called
+                self.blocks.append(cm)       # only reached if the invalid theme was accepted
+            elif kind == "bad_input":
+                if _bad_input():
+                    raise _Boom("refused")   # uniform with the other refusals: an exception reached the caller
             else:
                 raise ValueError(kind)
         except Exception as e:          # noqa: the code under test may raise anything
@@ -349,7 +443,7 @@ class Impl:
 
     def fingerprint(self):
         try:
-            ts = self.console._theme_stack
+            ts = self.console._theme_stack if self.driver == "console" else self.target
             ent = ts._entries
             return (tuple(len(e) for e in ent), getattr(ts.get, "__self__", None) is ent[-1])
         except Exception:
@@ -371,8 +465,15 @@ def _refkey(st):
     return m[1]
 
 
-def _lookup(console, name, default=None):
+def _lookup(impl, name, default=None):
+    if impl.driver == "stack":
+        try:
+            st = impl.target.get(name)
+        except Exception as e:
+            return ("x", type(e).__name__)
+        return ("m",) if st is None else ("s", _refkey(st))
     from rich.errors import MissingStyle
+    console = impl.console
     try:
         st = console.get_style(name) if default is None else console.get_style(name, default=default)
     except MissingStyle:
@@ -382,14 +483,25 @@ def _lookup(console, name, default=None):
     return ("s", _refkey(st))
 
 
-def observe(console):
-    return tuple(_lookup(console, n, d) for n, d in PROBES)
+def _probes(driver):
+    return PROBES if driver == "console" else STACK_PROBES
 
 
-def touch(console):
+def observe(impl):
+    return tuple(_lookup(impl, n, d) for n, d in _probes(impl.driver))
+
+
+def touch(impl):
     """the same lookups as observe(), results dropped: what a session does between two theme
     operations (it prints); run after every event of a replayed prefix"""
-    get = console.get_style
+    if impl.driver == "stack":
+        for n, _d in STACK_PROBES:
+            try:
+                impl.target.get(n)
+            except Exception:
+                pass
+        return
+    get = impl.console.get_style
     for n, d in PROBES:
         try:
             get(n) if d is None else get(n, default=d)
@@ -397,18 +509,18 @@ def touch(console):
             pass
 
 
-def execute(base, hist, ev, lookups=True):
+def execute(base, hist, ev, lookups=True, driver="console"):
     """Fresh session, replay `hist` (with the probe lookups after every step, or with none),
     then `ev`. -> (impl, exception of ev, observation after ev)"""
-    impl = Impl(base)
+    impl = Impl(base, driver)
     if lookups:
-        touch(impl.console)
+        touch(impl)
     for e in hist:
         impl.apply(e)
         if lookups:
-            touch(impl.console)
+            touch(impl)
     exc = impl.apply(ev)
-    return impl, exc, observe(impl.console)
+    return impl, exc, observe(impl)
 
 
 def _crash_key(e):
@@ -422,7 +534,7 @@ def _crash_key(e):
 
 def _show(o):
     if o == ("m",):
-        return "MissingStyle"
+        return "nothing (MissingStyle / None)"
     if o[0] == "x":
         return "raised " + o[1]
     k = o[1]
@@ -431,16 +543,17 @@ def _show(o):
     return repr(R(dict(k[0]), k[1], k[2], k[3]))
 
 
-def _diff(obs, exp):
-    return "; ".join("get_style(%r%s): got %s, reference %s" % (n, "" if d is None else ", default=%r" % d, _show(o), _show(e))
-                     for (n, d), o, e in zip(PROBES, obs, exp) if o != e)
+def _diff(obs, exp, driver="console"):
+    fn = "get_style" if driver == "console" else "ThemeStack.get"
+    return "; ".join("%s(%r%s): got %s, reference %s" % (fn, n, "" if d is None else ", default=%r" % d, _show(o), _show(e))
+                     for (n, d), o, e in zip(_probes(driver), obs, exp) if o != e)
 
 
-def _classify(ev, ref_after, obs, exp):
+def _classify(ev, ref_after, obs, exp, driver="console"):
     if ev is not None and ev[0] in ("push", "enter"):
-        if obs == ref_after.expected(flip_top=True):
+        if obs == ref_after.expected(flip_top=True, driver=driver):
             return "inherit-false-still-inherits" if not ev[3] else "inherit-true-does-not-inherit"
-    for (n, d), o, e in zip(PROBES, obs, exp):
+    for (n, d), o, e in zip(_probes(driver), obs, exp):
         if o != e:
             sfx = "" if d is None else "-with-default"
             if o[0] == "x":
@@ -453,29 +566,39 @@ def _classify(ev, ref_after, obs, exp):
     return "mismatch"
 
 
-def judge(ev, ref_before, ref_after, exc, obs, cur_obs, obs_stack, modified=()):
+def judge(ev, ref_before, ref_after, exc, obs, cur_obs, obs_stack, modified=(), driver="console"):
     """-> list of (finding key, detail) for one executed transition."""
     kind = ev[0]
-    name = EVNAME[kind]
-    if kind == "pop" and ref_before.height == 1:
-        from rich.theme import ThemeStackError
+    pre = "" if driver == "console" else "ThemeStack."
+    name = pre + EVNAME[kind]
+    if ref_before.is_refusal(ev):
+        # the operation has to fail, and failing must leave everything as it was: every lookup now,
+        # and (because the history goes on from here) the depth and every later lookup
         out = []
-        if exc is None:
-            out.append(("pop-base/no-error", "pop_theme() on the base theme returned normally"))
-        elif not isinstance(exc, ThemeStackError):
-            out.append(("pop-base/wrong-exception/" + type(exc).__name__, repr(exc)))
+        if kind == "pop":
+            from rich.theme import ThemeStackError
+            name = pre + "pop-base"
+            if exc is None:
+                out.append((name + "/no-error", "pop_theme() on the base theme returned normally"))
+            elif not isinstance(exc, ThemeStackError):
+                out.append((name + "/wrong-exception/" + type(exc).__name__, repr(exc)))
+        elif exc is None:
+            return [("?accepted", "")]        # the invalid input was accepted: the statement has nothing to say
+        if modified:
+            out.append((name + "/theme-object-modified", "; ".join(modified)))
         if obs != cur_obs:
-            out.append(("pop-base/lookups-changed", _diff(obs, cur_obs)))
+            out.append((name + "/lookups-changed", _diff(obs, cur_obs, driver)))
         return out
     if exc is not None:
         return [(_crash_key(exc), "%s raised %r" % (name, exc))]
     if modified:
         return [(name + "/theme-object-modified", "the Theme object's own styles changed: " + "; ".join(modified))]
     if kind in ("pop", "exit", "exit_exc") and obs != obs_stack[-1]:
-        return [(name + "/not-restored", "lookups differ from those before the matching push: " + _diff(obs, obs_stack[-1]))]
-    exp = ref_after.expected()
+        return [(name + "/not-restored", "lookups differ from those before the matching push: "
+                 + _diff(obs, obs_stack[-1], driver))]
+    exp = ref_after.expected(driver=driver)
     if obs != exp:
-        return [("%s/%s" % (name, _classify(ev, ref_after, obs, exp)), _diff(obs, exp))]
+        return [("%s/%s" % (name, _classify(ev, ref_after, obs, exp, driver)), _diff(obs, exp, driver))]
     return []
 
 
@@ -496,15 +619,16 @@ def _sweep_table():
     return _SWEEP
 
 
-def sweep(console, ref):
-    """all default names + a, b, c on one state -> (n mismatches, detail)"""
+def sweep(impl, ref):
+    """all default names + a, b, c on one state -> list of mismatches"""
     bad = []
+    fn = "get_style" if impl.driver == "console" else "ThemeStack.get"
     for n, fallback in _sweep_table().items():
         v = ref.resolve(n)[0]
-        e = fallback if v is None else _value_key(v)
-        o = _lookup(console, n)
+        e = (fallback if impl.driver == "console" else ("m",)) if v is None else _value_key(v)
+        o = _lookup(impl, n)
         if o != e:
-            bad.append("get_style(%r): got %s, reference %s" % (n, _show(o), _show(e)))
+            bad.append("%s(%r): got %s, reference %s" % (fn, n, _show(o), _show(e)))
     return bad
 
 
@@ -512,49 +636,85 @@ def _evjson(hist):
     return [list(e) for e in hist]
 
 
-def _walk(base, hist):
+def _attribute(base, hist, ev, probs, driver):
+    """A failure in a history that contains refused operations: is it there without them too?
+    Then it is the business of the same transition in the refusal-free history (-> None, not
+    reported here). Otherwise it is what a refused operation left behind: one key per way of
+    showing (a later operation raises / later lookups are wrong)."""
+    ref, twin = RefStack(base), []
+    for e in hist:
+        if not ref.is_refusal(e):
+            twin.append(e)
+        ref.apply(e)
+    if not ref.is_refusal(ev):
+        twin.append(ev)
+    if _walk(base, twin, driver)[0]:
+        return None
+    pre = "" if driver == "console" else "ThemeStack."
+    out = []
+    for key, detail in probs:
+        parts = key.split("/")
+        if "crash" in parts[0] or "wrong-exception" in parts:
+            exc = parts[1] if "crash" in parts[0] else parts[-1]
+            k2 = pre + "refused-operation/later-operation-raises-" + exc
+        elif parts[-1] == "no-error":
+            k2 = pre + "refused-operation/later-pop-base-succeeds"
+        else:
+            k2 = pre + "refused-operation/later-lookups-wrong"
+        out.append((k2, "after a refused operation earlier in this history: [%s] %s" % (key, detail)))
+    return out
+
+
+def _walk(base, hist, driver="console"):
     """One session stepping through `hist` with the probe lookups (and the judgement) after every
     event -- the very calls execute(lookups=True) makes. -> (problems, ref, cur obs, obs stack, impl)"""
-    impl, ref = Impl(base), RefStack(base)
-    cur = observe(impl.console)
-    exp = ref.expected()
+    impl, ref = Impl(base, driver), RefStack(base)
+    cur = observe(impl)
+    exp = ref.expected(driver=driver)
+    pre = "" if driver == "console" else "ThemeStack."
     if cur != exp:
-        return [("initial/" + _classify(None, ref, cur, exp), _diff(cur, exp))], ref, cur, (), impl
+        return [(pre + "initial/" + _classify(None, ref, cur, exp, driver), _diff(cur, exp, driver))], ref, cur, (), impl
     stack = ()
-    for ev in hist:
-        ev = tuple(ev)
+    hist = [tuple(e) for e in hist]
+    for i, ev in enumerate(hist):
         ref2 = ref.copy()
         ref2.apply(ev)
         exc = impl.apply(ev)
-        obs = observe(impl.console)
-        probs = judge(ev, ref, ref2, exc, obs, cur, stack, impl.modified_themes())
+        obs = observe(impl)
+        probs = judge(ev, ref, ref2, exc, obs, cur, stack, impl.modified_themes(), driver)
+        if probs and ref.refused and probs[0][0] != "?accepted":
+            probs = _attribute(base, hist[:i], ev, probs, driver) or [("?elsewhere", "")]
         if probs:
             return probs, ref2, obs, stack, impl
         if ev[0] in ("push", "enter"):
             stack = stack + (cur,)
-        elif ref.height > 1:
+        elif not ref.is_refusal(ev):
             stack = stack[:-1]
         cur, ref = obs, ref2
     return [], ref, cur, stack, impl
 
 
-def check_history(base, hist, lookups=True):
+def check_history(base, hist, lookups=True, driver="console"):
     """Re-executes one case the way the BFS executed it. -> list of (key, detail). Used by replay()."""
     hist = [tuple(e) for e in hist]
+    pre = "" if driver == "console" else "ThemeStack."
     if lookups or not hist:
-        probs, ref, _cur, _stack, impl = _walk(base, hist)
+        probs, ref, _cur, _stack, impl = _walk(base, hist, driver)
         if probs:
-            return probs
-        bad = sweep(impl.console, ref)
-        return [("sweep/lookup-mismatch", "; ".join(bad[:5]))] if bad else []
-    probs, ref, cur, stack, _impl = _walk(base, hist[:-1])
+            return [p for p in probs if not p[0].startswith("?")]
+        bad = sweep(impl, ref)
+        return [(pre + "sweep/lookup-mismatch", "; ".join(bad[:5]))] if bad else []
+    probs, ref, cur, stack, _impl = _walk(base, hist[:-1], driver)
     if probs:
-        return probs
+        return [p for p in probs if not p[0].startswith("?")]
     ev = hist[-1]
     ref2 = ref.copy()
     ref2.apply(ev)
-    impl, exc, obs = execute(base, hist[:-1], ev, lookups=False)
-    return judge(ev, ref, ref2, exc, obs, cur, stack, impl.modified_themes())
+    impl, exc, obs = execute(base, hist[:-1], ev, lookups=False, driver=driver)
+    probs = judge(ev, ref, ref2, exc, obs, cur, stack, impl.modified_themes(), driver)
+    if probs and ref.refused and probs[0][0] != "?accepted":
+        probs = _attribute(base, hist[:-1], ev, probs, driver) or []
+    return [p for p in probs if not p[0].startswith("?")]
 
 
 # ------------------------------------------------------------------ BFS
@@ -564,10 +724,13 @@ def _bfs(sh, tier, res):
     snap_default = dict(themes.DEFAULT.styles)
     snap_table = dict(DEFAULT_STYLES)
     base = sh["base"]
+    driver = sh.get("driver", "console")
+    pre = "" if driver == "console" else "ThemeStack."
     root = [tuple(e) for e in sh["root"]]
     maxdepth = QUICK_DEPTH if tier == "quick" else None
+    both_depth = QUICK_BOTH_MODES_DEPTH if tier == "quick" else THOROUGH_BOTH_MODES_DEPTH
     is_root_shard = not root
-    case0 = {"part": "stack", "base": base}
+    case0 = {"part": "stack", "base": base, "driver": driver}
     mute = False
     seen = set()
     frontier = collections.deque()
@@ -578,10 +741,10 @@ def _bfs(sh, tier, res):
         frontier.append((list(hist), cur, stack))
 
     # materialise the states this shard starts from
-    probs, ref, cur, stack, impl = _walk(base, root)
+    probs, ref, cur, stack, impl = _walk(base, root, driver)
     if is_root_shard:
         res.evaluations += 1
-        res.sig(("initial", base), nontrivial=False)
+        res.sig(("initial", base, driver), nontrivial=False)
         # A wrong initial state is reported once; the transitions out of it are still executed
         # (and counted) but what they show is a consequence, so they add no further keys.
         if probs:
@@ -589,18 +752,19 @@ def _bfs(sh, tier, res):
                 res.violate(key, dict(case0, history=[]), detail)
             mute = True
         else:
-            bad = sweep(impl.console, ref)
+            bad = sweep(impl, ref)
             if bad:
-                res.violate("sweep/lookup-mismatch", dict(case0, history=[]), "; ".join(bad[:5]))
+                res.violate(pre + "sweep/lookup-mismatch", dict(case0, history=[]), "; ".join(bad[:5]))
                 mute = True
         admit(root, ref, cur, stack, impl)
-        # the base with nothing pushed, after the session has been up to height k and back: these are
-        # the only states no level-1 shard owns
+        # the base with nothing pushed, after the session has been up to height k and back: with
+        # the states refused operations lead to from there, these are all the states of height 1,
+        # which no level-1 shard owns
         for k in range(2, MAXHEIGHT + 1):
             hk = [PUSHES[0]] * (k - 1) + [("pop",)] * (k - 1)
             if mute or (maxdepth is not None and len(hk) > maxdepth):
                 break
-            probs, ref, cur, stack, impl = _walk(base, hk)
+            probs, ref, cur, stack, impl = _walk(base, hk, driver)
             if probs:
                 res.count("subtrees_not_expanded_after_violation")     # reported by the shard owning [PUSHES[0]]
                 break
@@ -610,11 +774,11 @@ def _bfs(sh, tier, res):
         if probs:
             res.count("subtrees_not_expanded_after_violation")         # reported by the root shard
             return
-        bad = sweep(impl.console, ref)
+        bad = sweep(impl, ref)
         res.evaluations += 1
         res.count("states_swept")
         if bad:
-            res.violate("sweep/lookup-mismatch", dict(case0, history=_evjson(root)), "; ".join(bad[:5]))
+            res.violate(pre + "sweep/lookup-mismatch", dict(case0, history=_evjson(root)), "; ".join(bad[:5]))
             return
         admit(root, ref, cur, stack, impl)
         maxd = len(root)
@@ -632,30 +796,39 @@ def _bfs(sh, tier, res):
             ref.apply(e)
         if ref.height >= MAXHEIGHT:
             res.count("pushes_not_enabled_by_height_cap", len(PUSHES))
-        both = tier == "thorough" or len(hist) <= QUICK_BOTH_MODES_DEPTH
-        for ev in _enabled(ref, MAXHEIGHT):
+        both = len(hist) <= both_depth
+        for ev in _enabled(ref, MAXHEIGHT, driver):
+            refusal = ref.is_refusal(ev)
             ref2 = ref.copy()
             ref2.apply(ev)
             h2 = hist + [ev]
             # (A) the session looked all probes up after every step so far
-            impl, exc, obs = execute(base, hist, ev, lookups=True)
+            impl, exc, obs = execute(base, hist, ev, True, driver)
             transitions += 1
             res.evaluations += 1
-            probs = judge(ev, ref, ref2, exc, obs, cur, stack, impl.modified_themes())
+            if refusal:
+                res.count("refused_operations_executed")
+            probs = judge(ev, ref, ref2, exc, obs, cur, stack, impl.modified_themes(), driver)
             org = ref2.origins()
-            res.sig((ev[0], ref2.height, ev[3] if len(ev) > 1 else None, org),
-                    nontrivial=("l" in org or "k" in org or "p" in org or len(ev) == 1))
+            res.sig((driver, ev[0], ref2.height, ev[3] if len(ev) > 2 else (ev[1] if len(ev) > 1 else None), org, ref.refused),
+                    nontrivial=("l" in org or "k" in org or "p" in org or len(ev) == 1 or refusal))
             case = dict(case0, history=_evjson(h2))
             # (B) the same history without any lookup before this point
             if both and not probs:
-                implb, excb, obsb = execute(base, hist, ev, lookups=False)
+                implb, excb, obsb = execute(base, hist, ev, False, driver)
                 res.evaluations += 1
                 res.count("transitions_without_intermediate_lookups")
-                probs = judge(ev, ref, ref2, excb, obsb, cur, stack, implb.modified_themes())
-                if not probs and implb.fingerprint() != impl.fingerprint():
-                    res.count("fingerprint_differs_between_lookup_modes")
+                probs = judge(ev, ref, ref2, excb, obsb, cur, stack, implb.modified_themes(), driver)
                 if probs:
                     case = dict(case, lookups=False)
+            if probs and probs[0][0] == "?accepted":
+                res.count("invalid_input_accepted_not_judged")
+                continue
+            if probs and ref.refused:
+                probs = _attribute(base, hist, ev, probs, driver)
+                if probs is None:
+                    res.count("failures_left_to_the_refusal_free_twin")
+                    continue
             if probs:
                 if not mute:
                     for key, detail in probs:
@@ -663,22 +836,26 @@ def _bfs(sh, tier, res):
                             h2, "" if "lookups" not in case else " (no lookups before the last event)", detail))
                 res.count("targets_not_expanded_after_violation")
                 continue
-            if is_root_shard or ref2.height < 2:
+            if (ref2.height == 1) != is_root_shard:
                 continue                      # target owned by another shard
             k = (ref2.canon(), obs, impl.fingerprint())
             if k in seen:
                 continue
             seen.add(k)
             bad = ()
-            if maxdepth is None or len(h2) < maxdepth:     # states at the depth cap are only recorded
-                bad = sweep(impl.console, ref2)
+            if (maxdepth is None or len(h2) < maxdepth) and not (ref2.refused and len(h2) > 3):
+                # states at the depth cap are only recorded; states behind a refusal have the tables of
+                # their unrefused twin, they are swept while the history is short
+                bad = sweep(impl, ref2)
                 res.evaluations += 1
                 res.count("states_swept")
             if bad:
-                res.violate("sweep/lookup-mismatch", case, "history %r: %s" % (h2, "; ".join(bad[:5])))
+                res.violate(pre + "sweep/lookup-mismatch", case, "history %r: %s" % (h2, "; ".join(bad[:5])))
                 continue
             if ev[0] in ("push", "enter"):
                 st2 = stack + (cur,)
+            elif refusal:
+                st2 = stack
             else:
                 st2 = stack[:-1]
             frontier.append((h2, obs, st2))
@@ -689,7 +866,9 @@ def _bfs(sh, tier, res):
     res.count("transitions", transitions)
     res.counters["max_depth"] = maxd
     if len(root) == 1 and root[0][1] == "T2":
-        res.sample(dict(case0, history=_evjson(root + [("enter", "T1", False, True), ("exit_exc",)])), limit=1)
+        res.sample(dict(case0, history=_evjson(root + [("push_bad", True), ("enter", "T1", False, True), ("exit_exc",)]
+                                               if driver == "console" else root + [("push_bad", False), ("pop",), ("pop",)])),
+                   limit=1)
     if dict(themes.DEFAULT.styles) != snap_default or dict(DEFAULT_STYLES) != snap_table:
         res.violate("global/default-theme-mutated", dict(case0, history=_evjson(root)),
                     "rich.themes.DEFAULT / DEFAULT_STYLES changed while exploring shard %r" % (sh,))
@@ -701,16 +880,19 @@ def _bfs(sh, tier, res):
 
 def _stack_shards():
     shards = []
-    for base in BASES:
-        shards.append({"part": "stack", "base": base, "root": []})
-        classes = set()
-        for ev in PUSHES:
-            ref = RefStack(base)
-            ref.apply(ev)
-            c = ref.level1()
-            if c not in classes:
-                classes.add(c)
-                shards.append({"part": "stack", "base": base, "root": [list(ev)]})
+    for driver in DRIVERS:
+        for base in BASES:
+            shards.append({"part": "stack", "driver": driver, "base": base, "root": []})
+            classes = set()
+            for ev in PUSHES:
+                if driver == "stack" and ev[0] != "push":
+                    continue
+                ref = RefStack(base)
+                ref.apply(ev)
+                c = ref.level1()
+                if c not in classes:
+                    classes.add(c)
+                    shards.append({"part": "stack", "driver": driver, "base": base, "root": [list(ev)]})
     return shards
 
 
@@ -908,24 +1090,34 @@ def run_shard(sh, tier, seed):
     return res
 
 
-_FOLD = (("initial", "push_theme", "use_theme"), ("pop_theme", "use_theme-exit", "use_theme-exit-exc"))
+_FOLD = (("initial", "push_theme", "use_theme"), ("pop_theme", "use_theme-exit", "use_theme-exit-exc"),
+         ("refused-push_theme", "refused-use_theme"))
+
+
+def _fold(res, keep, drop):
+    if keep in res.violations and drop in res.violations and keep != drop:
+        del res.violations[drop]
+        res.vcount[keep] = res.vcount.get(keep, 0) + res.vcount.pop(drop, 0)
+        res.count("finding_keys_folded")
 
 
 def finish(tier, seed, res):
     """One key per defect class: use_theme is push_theme + pop_theme behind a context manager, so
     `use_theme/X` is a class of its own only when `push_theme/X` does not fail in the same way
-    (likewise pop_theme > use_theme-exit > use_theme-exit-exc). The folded counts are added."""
-    for chain in _FOLD:
-        for key in sorted(res.violations):
-            op, _, cls = key.partition("/")
-            if op not in chain or key not in res.violations:
-                continue
-            for lower in chain[chain.index(op) + 1:]:
-                k2 = "%s/%s" % (lower, cls)
-                if k2 in res.violations:
-                    del res.violations[k2]
-                    res.vcount[key] = res.vcount.get(key, 0) + res.vcount.pop(k2, 0)
-                    res.count("finding_keys_folded")
+    (likewise pop_theme > use_theme-exit > use_theme-exit-exc), and the Console operations are
+    the ThemeStack operations behind one call, so `op/X` is a class of its own only when
+    `ThemeStack.op/X` does not fail in the same way. The folded counts are added."""
+    for pre in ("", "ThemeStack."):
+        for chain in _FOLD:
+            for i, op in enumerate(chain):
+                for key in sorted(res.violations):
+                    if key.startswith(pre + op + "/"):
+                        cls = key[len(pre + op):]
+                        for lower in chain[i + 1:]:
+                            _fold(res, key, pre + lower + cls)
+    for key in sorted(res.violations):
+        if key.startswith("ThemeStack."):
+            _fold(res, key, key[len("ThemeStack."):])
 
 
 def describe(tier, seed, res):
@@ -980,7 +1172,7 @@ def describe(tier, seed, res):
 def replay(case):
     res = Result()
     if case.get("part") == "stack":
-        return check_history(case["base"], case["history"], case.get("lookups", True))
+        return check_history(case["base"], case["history"], case.get("lookups", True), case.get("driver", "console"))
     styles = tuple((n, (tuple((a, bool(v)) for a, v in d[0]), d[1], d[2], d[3])) for n, d in case["styles"])
     check_config(styles, case["route"], case["theme_inherit"], case["read_inherit"], res)
     return [(k, v[2]) for k, v in sorted(res.violations.items())]
